@@ -165,7 +165,10 @@ def equality_test(actual, expected, _exact_strings, _delta):
         if not _are_sets_equal(primary_keys, set(actual.keys()), _exact_strings, _delta):
             return False
         for key in primary_keys:
-            if not equality_test(expected[key], actual[key], _exact_strings, _delta):
+            # The key sets are equal up to normalisation and tolerance: find this key's partner
+            partners = [key] if key in actual else [other for other in actual
+                                                    if equality_test(other, key, _exact_strings, _delta)]
+            if not partners or not equality_test(expected[key], actual[partners[0]], _exact_strings, _delta):
                 return False
         return True
     # Two dataclasses
